@@ -3,7 +3,7 @@
 
    Model (Model/Forwarding.v): events [SetFwd i b] (the environment flips interface i's forwarding sysctl) and
    [Gen i p] (an RA is generated for interface i on path p in {Initial, Periodic, Solicited, Final, Verify, Scrape,
-   Api}).  The machine's state is the environment's flag map only -- the daemon holds no copy.  [cfg i] is the RA
+   Api}; ScrapeIdle is the metrics scrape visiting an interface that does not advertise: no RA is generated).  The machine's state is the environment's flag map only -- the daemon holds no copy.  [cfg i] is the RA
    built from interface i's configuration and plugins; its lifetime field is the configured default lifetime.
    [flag_at f0 before i] is the flag of i after the events [before]: its last flip, else the initial value. *)
 From CR Require Import Model.Forwarding.
@@ -29,19 +29,20 @@ Theorem C04_generation : forall cfg evs f0 k i p,
     o_misconf o = negb fwd && (0 <? configured) /\
     o_logged o = (match path_surface p with SLog => o_misconf o | _ => false end) /\
     o_gauge o = (match path_surface p with SGauge => Some (o_misconf o) | _ => None end) /\
-    o_fwd_gauge o = (match p with Scrape => Some fwd | _ => None end) /\
+    o_fwd_gauge o = (match p with Scrape | ScrapeIdle => Some fwd | _ => None end) /\
     o_reads o = 1%N.
 Proof. exact run_nth_props. Qed.
 
 (* which paths surface the misconfiguration how, and what each path is configured with *)
 Theorem C04_paths :
   (forall p, In p [Initial; Periodic; Solicited; Final; Verify] -> path_surface p = SLog) /\
-  path_surface Scrape = SGauge /\ path_surface Api = SNone /\
-  (forall l, path_lifetime Final l = 0) /\ (forall p l, p <> Final -> path_lifetime p l = l).
+  path_surface Scrape = SGauge /\ path_surface ScrapeIdle = SGauge /\ path_surface Api = SNone /\
+  (forall l, path_lifetime Final l = 0) /\ (forall l, path_lifetime ScrapeIdle l = 0) /\
+  (forall p l, p <> Final -> p <> ScrapeIdle -> path_lifetime p l = l).
 Proof.
   repeat split.
   - intros p H. cbn in H. intuition subst; reflexivity.
-  - intros p l H. destruct p; try reflexivity. contradiction.
+  - intros p l H H'. destruct p; try reflexivity; contradiction.
 Qed.
 
 (* "tracks forwarding changes between consecutive RAs": the flag in force is the last flip of that interface *)
@@ -84,16 +85,32 @@ Qed.
 
 (* reading decision: with default_lifetime = 0 (and on the final path) nothing is overridden, nothing reported *)
 Corollary C04_zero_lifetime_silent : forall cfg evs f0 k i p o,
-  nth_error evs k = Some (Gen i p) -> (ra_lifetime (cfg i) = 0 \/ p = Final) ->
+  nth_error evs k = Some (Gen i p) -> (ra_lifetime (cfg i) = 0 \/ p = Final \/ p = ScrapeIdle) ->
   nth_error (run cfg f0 evs) k = Some (Some o) ->
   ra_lifetime (o_ra o) = 0 /\ o_misconf o = false /\ o_logged o = false /\ o_gauge o <> Some true.
 Proof.
   intros cfg evs f0 k i p o Hn Hz Ho.
   rewrite (run_nth cfg evs f0 k i p Hn) in Ho. inversion Ho; subst o. clear Ho.
-  assert (Hc : path_lifetime p (ra_lifetime (cfg i)) = 0) by (destruct Hz as [->| ->]; [destruct p|]; reflexivity).
+  assert (Hc : path_lifetime p (ra_lifetime (cfg i)) = 0) by (destruct Hz as [->|[->| ->]]; [destruct p| |]; reflexivity).
   destruct (gen_surface i p (cfg i) (flag_at f0 (firstn k evs) i)) as [H3 [H4 _]].
   rewrite H3, H4, gen_misconf, gen_ra, Hc. cbn [set_lifetime ra_lifetime Z.ltb Z.compare andb].
   rewrite andb_false_r. repeat split; destruct (path_surface p); try reflexivity; discriminate.
+Qed.
+
+(* a monitoring or unused interface in a multi-interface configuration: the scrape reports its own forwarding flag
+   (the last flip of THAT interface) and never a misconfiguration -- whatever its stanza says, whatever the flags,
+   configurations and generations of the interfaces listed before it *)
+Corollary C04_idle_interface : forall cfg evs f0 k i o,
+  nth_error evs k = Some (Gen i ScrapeIdle) ->
+  nth_error (run cfg f0 evs) k = Some (Some o) ->
+  o_misconf o = false /\ o_logged o = false /\ o_gauge o = Some false /\
+  o_fwd_gauge o = Some (flag_at f0 (firstn k evs) i) /\ o_reads o = 1%N.
+Proof.
+  intros cfg evs f0 k i o Hn Ho.
+  rewrite (run_nth cfg evs f0 k i ScrapeIdle Hn) in Ho. inversion Ho; subst o. clear Ho.
+  destruct (gen_surface i ScrapeIdle (cfg i) (flag_at f0 (firstn k evs) i)) as [H3 [H4 H5]].
+  rewrite H3, H4, H5, gen_misconf, gen_reads. cbn [path_lifetime path_surface Z.ltb Z.compare].
+  rewrite andb_false_r. repeat split.
 Qed.
 
 (* per-interface independence: flips and generations of other interfaces never change an output of B *)
@@ -117,10 +134,22 @@ Example C04_example :
     None; Some (1800 * sec, false, false, None, None); Some (0, false, false, None, None) ].
 Proof. vm_compute. reflexivity. Qed.
 
+(* an unused interface 3 (its stanza would yield a 1800 s lifetime) listed after the advertising, non-forwarding
+   interface 1: the scrape reports interface 1 and is silent about interface 3, whose gauge follows its own flag *)
+Example C04_idle_example :
+  map (option_map (fun o => (o_misconf o, o_gauge o, o_fwd_gauge o)))
+      (run (fun _ => ex_cfg 1) (fun _ => true)
+           [SetFwd 1 false; Gen 1 Scrape; Gen 3 ScrapeIdle; SetFwd 3 false; Gen 1 Scrape; Gen 3 ScrapeIdle]) =
+  [ None; Some (true, Some true, Some false); Some (false, Some false, Some true);
+    None; Some (true, Some true, Some false); Some (false, Some false, Some false) ].
+Proof. vm_compute. reflexivity. Qed.
+
 Print Assumptions C04_generation.
 Print Assumptions C04_paths.
 Print Assumptions C04_flag_tracks.
 Print Assumptions C04_never_default_router.
 Print Assumptions C04_forwarding_silent.
 Print Assumptions C04_zero_lifetime_silent.
+Print Assumptions C04_idle_interface.
 Print Assumptions C04_independence.
+Print Assumptions C04_idle_example.
